@@ -476,7 +476,7 @@ fn both(k: usize) -> Vec<Bounds> {
 pub fn scenarios(prop: &str, tier: Tier) -> Vec<(FsSc, Vec<Bounds>)> {
 	let mut out = vec![];
 	let (len, kmax, sets) = match tier {
-		Tier::Quick => (3usize, 1usize, pathsets(2)),
+		Tier::Quick => (3usize, 1usize, pathsets(3)),
 		Tier::Thorough => (4, 1, pathsets(3)),
 	};
 	let mut alpha: Vec<Chg> = sets.iter().cloned().map(Chg::Paths).collect();
@@ -505,14 +505,26 @@ pub fn scenarios(prop: &str, tier: Tier) -> Vec<(FsSc, Vec<Bounds>)> {
 	}
 	for s in &all {
 		let l = s.len();
-		let passes: Vec<Bounds> = if l >= 3 { both(0) } else { (0..=kmax).flat_map(both).collect() };
+		let passes: Vec<Bounds> = match tier {
+			Tier::Quick => (0..=kmax).flat_map(both).collect(),
+			Tier::Thorough => {
+				if l >= 4 {
+					both(0)
+				} else if l == 3 {
+					(0..=1).flat_map(both).collect()
+				} else {
+					(0..=2).flat_map(both).collect()
+				}
+			}
+		};
 		let direct: Vec<(Chg, Via)> = s.iter().cloned().map(|c| (c, Via::Direct)).collect();
 		if prop == "C13" {
 			out.push((FsSc { changes: direct.clone(), fail_watch: vec![], fail_unwatch: vec![], in_call: 0, err_chan: 64, errh_applies: false }, passes.clone()));
-			if l >= 2 && l <= 3 && drops_at_most_one(s) {
+			if l >= 2 && l <= if tier == Tier::Thorough { 4 } else { 3 } && drops_at_most_one(s) {
 				// later changes land in the middle of the previous apply
 				let max_in = if tier == Tier::Thorough { 2 } else { 1 };
-				out.push((FsSc { changes: direct.clone(), fail_watch: vec![], fail_unwatch: vec![], in_call: max_in, err_chan: 64, errh_applies: false }, both(0)));
+				let p = if tier == Tier::Thorough && l <= 3 { (0..=1).flat_map(both).collect() } else { both(0) };
+				out.push((FsSc { changes: direct.clone(), fail_watch: vec![], fail_unwatch: vec![], in_call: max_in, err_chan: 64, errh_applies: false }, p));
 			}
 			if l == 2 {
 				// issued from inside the action handler; mixed with no-op changes
